@@ -346,13 +346,15 @@ fn bfs(args: &Args, rep: &Report, cache: CacheCfg, uni: &Uni, depth: usize, stat
                 if d > 0 {
                     trans.fetch_add(1, std::sync::atomic::Ordering::Relaxed);
                 }
+                // op contracts are properties of TRANSITIONS: judged before deduplication (a transition into
+                // an already known state must not escape judgement)
+                for (k, v) in vs {
+                    rep.violation(format!("{vname}/op_contract/{k}"), json!({"history": hshow(), "detail": v}));
+                }
                 if !seen.lock().unwrap().insert(h128(&fp)) {
                     return;
                 }
                 new_states.fetch_add(1, std::sync::atomic::Ordering::Relaxed);
-                for (k, v) in vs {
-                    rep.violation(format!("{vname}/op_contract/{k}"), json!({"history": hshow(), "detail": v}));
-                }
                 // the invariant, evaluated on a fresh replay so that the reads do not disturb this state
                 let (db2, mgr2, m2, _) = replay(cache, hist).await;
                 let n = check_reads(rep, &vname, &hshow, &db2, &mgr2, &m2, uni.n_nodes).await;
